@@ -1953,7 +1953,7 @@ Proof.
   { unfold wiring_of. rewrite EX at 4. rewrite shape_tk.
     unfold relevel. rewrite din_put, soutv_put, sinv_put, !din_inner, !sinv_inner, soutv_inner.
     rewrite (@refill_look _ Ndi). rewrite (@canon_sig_eq _ Nso Hc). reflexivity. }
-  rewrite E1, E2, E3, EW. unfold wiring_of.
+  rewrite E1, E2, EW. unfold wiring_of.
   assert (Hacc : acc_eq (mkW (din (nkids n)) (soutv (nkids n)) (refill (fun i => rev (look (sinv (nkids n)) i)) (sinv (nkids n)))
                              (map (fun k => (nlab k, map dlab (nins k))) (nkids n)))
                         (mkW (din (nkids n)) (soutv (nkids n)) (sinv (nkids n))
@@ -3033,7 +3033,7 @@ Proof.
                    (map (fun k => (nlab k, map dlab (nins k))) (nkids m))).
   { unfold wiring_of, relevel. rewrite shape_put, din_put, soutv_put, sinv_put.
     rewrite (@refill_look _ Ndi). rewrite (@canon_sig_eq _ Nso Hc). reflexivity. }
-  rewrite E1, E2, E3, EW. unfold wiring_of.
+  rewrite E1, E2, EW. unfold wiring_of.
   assert (Hacc : acc_eq (mkW (din (nkids m)) (soutv (nkids m)) (refill (fun i => rev (look (sinv (nkids m)) i)) (sinv (nkids m)))
                              (map (fun k => (nlab k, map dlab (nins k))) (nkids m)))
                         (mkW (din (nkids m)) (soutv (nkids m)) (sinv (nkids m))
